@@ -1140,6 +1140,37 @@ func genStore(c *Ctx, profile string) {
 				M{"op": "q", "q": "entity", "id": fresh, "scope": []string{ds}},
 				M{"op": "q", "q": "entity", "id": "ns3:e1", "scope": []string{ds}})
 		}
+		if profile == "c20" && c.Rng.Intn(2) == 0 {
+			// the first write after a backup run is a single-commit metadata change (dataset deleted / created), then
+			// the hub restarts, then the next run: the incremental run must pick that commit up
+			ops = append(ops, M{"op": "backup"})
+			victim := g.dss[c.Rng.Intn(len(g.dss))]
+			fresh := fmt.Sprintf("y%d", c.Rng.Intn(100))
+			switch c.Rng.Intn(3) {
+			case 0:
+				if len(g.dss) > 1 {
+					ops = append(ops, M{"op": "deleteDs", "name": victim})
+				}
+			case 1:
+				ops = append(ops, M{"op": "createDs", "name": fresh})
+			default:
+				ops = append(ops, M{"op": "renameDs", "name": victim, "to": fresh})
+			}
+			if c.Rng.Intn(4) != 0 {
+				ops = append(ops, M{"op": "reopen"})
+			}
+			if c.Rng.Intn(2) == 0 {
+				ops = append(ops, M{"op": "store", "ds": g.dss[0], "ents": g.batch()})
+			}
+			ops = append(ops, M{"op": "backup"})
+			for _, n := range []string{victim, fresh} {
+				ops = append(ops, M{"op": "q", "q": "list", "ds": n, "pages": []int{0}, "on": "restore"},
+					M{"op": "q", "q": "changes", "ds": n, "since": 0, "limits": []int{0}, "latestOnly": false, "on": "restore"})
+			}
+			ops = append(ops, M{"op": "q", "q": "catalogue", "names": []string{victim, fresh}, "on": "restore"},
+				M{"op": "q", "q": "entity", "id": "ns3:e1", "scope": []string{}, "on": "restore"},
+				M{"op": "q", "q": "entity", "id": "ns3:e2", "scope": []string{}, "on": "restore"})
+		}
 		if profile == "c18" {
 			doHist(c, M{"ops": withMsRuns(c, g, ops), "jobs": true})
 			continue
